@@ -2,8 +2,6 @@ package appdrv
 
 import (
 	"bytes"
-	"crypto/sha256"
-	"encoding/json"
 	"fmt"
 	"math"
 	"math/rand"
@@ -30,31 +28,7 @@ type hostileRun struct {
 	stats map[string]int
 }
 
-func (h *hostileRun) stateTok() string {
-	var tok string
-	if pm := Call(func() {
-		// the observable state: an absent account and an empty one are the same; the per-block
-		// transaction counter and the EVM block gas pool are not state any property speaks about
-		p := Project(h.s.R.App, h.s.R.KR, ProjOpts{})
-		delete(p, "txCount")
-		if vol, ok := p["vol"].(J); ok {
-			delete(vol, "gasPool")
-		}
-		if accts, ok := p["accts"].(J); ok {
-			for k, a := range accts {
-				ac := a.(J)
-				if len(ac["bal"].([]int)) == 0 && ac["nonce"].(int) == 0 && ac["code"].(int) == 0 && ac["name"].(string) == "" && ac["url"].(string) == "" {
-					delete(accts, k)
-				}
-			}
-		}
-		bz, _ := json.Marshal(p)
-		tok = fmt.Sprintf("%x", sha256.Sum256(bz))[:16]
-	}); pm != "" {
-		return "PANIC:" + pm
-	}
-	return tok
-}
+func (h *hostileRun) stateTok() string { return StateDigest(h.s.R.App, h.s.R.KR) }
 
 // layer classifies how deep an input got, from the response log.
 func layer(code uint32, log string, decoded bool) string {
@@ -342,6 +316,7 @@ func RunHostile(seed int64, rounds int, tmp string, emit func(J)) (map[string]in
 	if err != nil {
 		return nil, "", err
 	}
+	defer s.R.Close()
 	s.R.NoProj = true
 	h := &hostileRun{s: s, rng: rand.New(rand.NewSource(seed)), emit: emit, stats: map[string]int{}}
 	emit(J{"ev": "HostileStart", "seed": seed, "state": h.stateTok()})
